@@ -49,6 +49,12 @@ var c04AllCfgs = func() []c03Cfg {
 func c04Schema(c *core.C) *gen.Schema {
 	s := gen.Generate(c.Rand, c03GenConfig(c.Rand))
 	c03Enrich(c.Rand, s)
+	// valid but unusual: proto2 files without a syntax statement (present on both sides of every comparison)
+	for _, f := range s.AllFiles() {
+		if f.Syntax == "proto2" && c.Rand.IntN(3) == 0 {
+			f.Syntax = ""
+		}
+	}
 	return s
 }
 
@@ -233,13 +239,37 @@ func c04Hierarchy(c *core.C, idx int) {
 	for _, op := range c03Catalogue {
 		byReach[c04OpReach(op)] = append(byReach[c04OpReach(op)], op)
 	}
-	for p := 0; p < c04PairsPerHierCase; p++ {
+	// the reservation-sensitive operators are where the categories differ (a deletion with the name
+	// or the number reserved is clean under some categories and dirty under others): each of them is
+	// also applied alone, so that no other edit of the pair masks a hole in the implication chain
+	var singles []*c03Op
+	for _, op := range c03Catalogue {
+		if strings.Contains(op.Name, "reserved") {
+			singles = append(singles, op)
+		}
+	}
+	for p := 0; p < c04PairsPerHierCase+len(singles); p++ {
 		ns := s.Clone()
 		env := &c03Env{R: c.Rand, Old: oldIdx, Hint: -1}
 		var applied []string
 		// stratified: aim at a reach class (0 = additive only) so that every implication meets clean antecedents
 		target := c.Rand.IntN(5)
-		for k := 1 + c.Rand.IntN(3); k > 0; k-- {
+		rounds := 1 + c.Rand.IntN(3)
+		if p >= c04PairsPerHierCase {
+			rounds = 0
+			op := singles[p-c04PairsPerHierCase]
+			env.New = c03Index(ns)
+			if sites := op.Sites(env.New); len(sites) > 0 {
+				snapshot := ns.Clone()
+				if exp := op.Apply(env, sites[c.Rand.IntN(len(sites))]); len(exp) == 0 {
+					ns = snapshot
+				} else {
+					applied = append(applied, op.Name)
+					c.Count("hierarchy_single_reservation_ops", 1)
+				}
+			}
+		}
+		for k := rounds; k > 0; k-- {
 			env.New = c03Index(ns)
 			if target == 0 || c.Rand.IntN(3) == 0 {
 				a := c04Additive[c.Rand.IntN(len(c04Additive))]
@@ -346,7 +376,7 @@ func init() {
 		},
 		Cases: func(tier string) int { return c04Chains(tier) + c04HierCases(tier) },
 		Run:   c04Run,
-		Required: []string{"chain_pairs", "self_pairs", "relayout_pairs", "hierarchy_pairs", "hier:----", "hier:F---", "hier:FP--", "hier:FPJ-", "hier:FPJW",
+		Required: []string{"hierarchy_single_reservation_ops", "chain_pairs", "self_pairs", "relayout_pairs", "hierarchy_pairs", "hier:----", "hier:F---", "hier:FP--", "hier:FPJ-", "hier:FPJW",
 			"implication_nonvacuous:FILE=>PACKAGE", "implication_nonvacuous:PACKAGE=>WIRE_JSON", "implication_nonvacuous:WIRE_JSON=>WIRE", "additive_operators"},
 	})
 }
